@@ -681,7 +681,12 @@ func init() {
 			return n
 		},
 		"io/fs.ReadFile": func(fr *frame, args []value) value {
-			// the operating system is not modelled: every file is absent (consult/ensure_loaded of files is outside)
+			// a file system value that implements fs.ReadFileFS itself (an in-memory one provided by a harness) is used
+			// as fs.ReadFile would use it; the operating system is not modelled: through any other fs.FS every file is absent
+			if fsys, ok := args[0].(iface); ok && fsys.t != nil && hasMethod(fr.i, fsys.t, "ReadFile") {
+				X.stub("io/fs.ReadFile: delegated to the fs value's own ReadFile")
+				return callMethodByName(fr, fsys, "ReadFile", args[1])
+			}
 			X.stub("io/fs.ReadFile: every file is absent")
 			return tuple{[]value(nil), makeErrorString(fr.i, "file does not exist")}
 		},
